@@ -1,5 +1,6 @@
 import XalanModel.C03.StatusProofs
 import XalanModel.C03.BuffersProofs
+import XalanModel.C03.LoopsProofs
 /-!
 # C03 — no input crashes, hangs or corrupts memory; every failure is a reported error
 
@@ -323,6 +324,25 @@ theorem number_to_string_fits_all_doubles (x : DblAbs) (hx : x.ip ≤ maxDouble)
 example : (⟨true, maxDouble, true⟩ : DblAbs).ip ≤ maxDouble ∧ int64Exact ⟨true, maxDouble, true⟩ = false := by
   decide +kernel
 
+set_option exponentiation.threshold 2000 in
+/-- **formatSmallNumber (the path for numbers no "%.Nf" reproduces, since c8ec637) stays inside both buffers.**  For either sign,
+    every decimal exponent a double can have (−1 … −324: `2^1074 ≤ 10^324`, and 4.9e-324 is the smallest double) and an exponent
+    field of up to three digits, `sprintf("%.17e")` fits `theScientific` and the expansion `[-]0.` + (e − 1) zeros + 18 digits + NUL
+    (at most 1 + 2 + 323 + 18 + 1 = 345 bytes) fits `char theBuffer[MAX_FLOAT_CHARACTERS]`.  Sizes and digit count are the
+    regenerated ones. -/
+theorem small_number_path_fits (neg : Bool) (e expDigits : Nat) (he : e ≤ 324) (hd : expDigits ≤ 3) :
+    (∃ b, formatSmallNumber neg e expDigits = .ok b ∧ b ≤ printfBufferSize) ∧ (2 : Nat) ^ 1074 ≤ 10 ^ 324 := by
+  refine ⟨?_, by decide +kernel⟩
+  have h1 : scientificBytes neg expDigits ≤ scientificBufferSize := by
+    unfold scientificBytes scientificBufferSize smallNumberDigits
+    cases neg <;> simp <;> omega
+  have h2 : smallNumberBytes neg e ≤ printfBufferSize := by
+    unfold smallNumberBytes printfBufferSize smallNumberDigits
+    cases neg <;> simp <;> omega
+  exact ⟨_, by simp [formatSmallNumber, h1, h2], h2⟩
+
+example : decExpOf 1 1074 400 0 = 324 ∧ formatSmallNumber true 324 3 = .ok 345 := by decide +kernel
+
 /-- **length-guarded stack arrays** (xsl:number `numberList`, `convertHelper theBuffer`, XPath C API
     `transcodeString`): whenever the guard selects the stack array, everything the code then stores
     (`len` elements + the terminating NUL where there is one) fits the declared size.  General lemma
@@ -334,5 +354,138 @@ theorem guarded_buffers_safe :
   exact guardOk_sound g len (h g hg) hp
 
 example : guardPasses ⟨"DoubleSupport convertHelper theBuffer", 200, true, 200, 1⟩ 199 = true := by decide
+
+
+/-! ## (c) more loops: conflicts bookkeeping, transcode retry, backwards walk of xsl:number -/
+
+/-- **Stylesheet::findTemplate — `conflictsArray[100]` / `conflictsVector(m_patternCount)`.**  Whatever the matching and
+    the priorities decide for each entry (`acts` is arbitrary), as long as the pattern table of the node has no more entries
+    than the stylesheet has pattern entries (`m_patternCount`, incremented once per entry created in `addTemplate`), neither
+    `addObjectIfNotFound` nor `conflicts[nConflicts++] = matchPat` stores outside the selected storage, and at most one
+    conflict per entry is recorded.  Invariant (`ConfInv`): after k entries `nConflicts ≤ k`, with one slot to spare while the best
+    pattern is not yet in the list.  Capacity and selection are the regenerated ones. -/
+theorem conflicts_array_safe (acts : List ConfAct) (patternCount : Nat) (h : acts.length ≤ patternCount) :
+    ∃ s', confRun (conflictsCapacity patternCount) ⟨none, []⟩ 0 acts = some s' ∧ s'.conf.length ≤ acts.length := by
+  have hcap : 0 + acts.length ≤ conflictsCapacity patternCount := by
+    unfold conflictsCapacity; split <;> omega
+  obtain ⟨s', e, hi⟩ := confRun_ok (conflictsCapacity patternCount) acts ⟨none, []⟩ 0 ⟨by simp, by intro b hb; cases hb⟩ hcap
+  exact ⟨s', e, by simpa using hi.1⟩
+
+example : ([ConfAct.better, .tie, .skip, .tie] : List ConfAct).length ≤ 7 := by decide
+
+/-- the switch to a vector of `m_patternCount` entries is necessary: with only the stack array, one best match followed by
+    as many equal-priority matches as the array has slots runs off its end -/
+theorem conflicts_array_alone_counterexample :
+    confRun conflictsArraySize ⟨none, []⟩ 0 (ConfAct.better :: List.replicate conflictsArraySize ConfAct.tie) = none := by
+  decide +kernel
+
+/-- **XalanOutputStream::transcode — the grow-and-retry loop terminates and stays inside the destination.**  For every input
+    length and every transcoder that respects its interface (the model clamps what it reports to `remaining` / `target`) and
+    never reports output without having consumed input, the loop — with the no-progress guard that the regenerated flag says is
+    present — ends within `len + 1` rounds, and every round offers the transcoder only room that exists
+    (`filled + target ≤ dest`, else `memErr`). -/
+theorem transcode_loop_terminates_in_bounds (len : Nat) (tr : Transcoder)
+    (hprog : ∀ s, (tr s).1 = 0 → min (tr s).2 s.target = 0) :
+    ∃ s', transcodeLoop len transcodeNoProgressGuard tr (len + 1) (transcodeInit len) = .ok s' := by
+  have hg : transcodeNoProgressGuard = true := rfl
+  rw [hg]
+  exact transcodeLoop_ok len tr hprog (len + 1) (transcodeInit len) (by simp [transcodeInit]) (by simp [transcodeInit])
+    (by simp [transcodeInit])
+
+example : ∀ s : TrSt, ((fun s => (s.remaining, s.remaining * 3)) s : Nat × Nat).1 = 0 →
+    min ((fun s => (s.remaining, s.remaining * 3)) s : Nat × Nat).2 s.target = 0 := by
+  intro s h; simp at h; simp [h]
+
+/-- without that guard (the code before 99e2481) a transcoder that makes no progress — the input ends in half a surrogate
+    pair — keeps the loop doubling the destination for ever: no amount of fuel is enough -/
+theorem transcode_without_guard_counterexample (fuel : Nat) :
+    transcodeLoop 1 false (fun _ => (0, 0)) fuel (transcodeInit 1) = .outOfFuel := by
+  have gen : ∀ (fuel : Nat) (s : TrSt), s.eaten = 0 → s.filled + s.target ≤ s.dest →
+      transcodeLoop 1 false (fun _ => (0, 0)) fuel s = .outOfFuel := by
+    intro fuel
+    induction fuel with
+    | zero => intro s _ _; rfl
+    | succ f ih =>
+      intro s he hb
+      simp only [transcodeLoop]
+      rw [if_pos hb]
+      simp only [Nat.zero_min, Nat.add_zero, he]
+      rw [if_neg (by omega)]
+      simp only [Bool.false_and, Bool.false_eq_true, if_false]
+      exact ih _ rfl (by simp only; omega)
+  exact gen fuel (transcodeInit 1) rfl (by simp [transcodeInit])
+
+/-- **ElemNumber::getPreviousNode, level="any" (after f84b15b).**  On any document (`prev` = the reverse document-order
+    successor, which has a smaller document-order number), for any `from` / `count` patterns — present or absent — the backwards
+    walk from node `p` ends within `p + 1` steps, and a pattern is only ever evaluated on an existing node (the model has no
+    other way to call one: the null check precedes both tests). -/
+theorem getPreviousNode_terminates (prev : Nat → Option Nat) (matchFrom matchCount : Option (Nat → Bool))
+    (hdec : ∀ p n, prev p = some n → n < p) (p : Nat) :
+    ∃ r, prevLoop prev matchFrom matchCount (p + 1) (some p) = .ok r :=
+  prevLoop_ok prev matchFrom matchCount hdec (p + 1) p (Nat.le_refl _)
+
+example : prevLoop (fun p => if p = 0 then none else some (p - 1)) (some fun n => n == 2) (some fun n => n % 2 == 1) 8 (some 7)
+    = .ok (some 5) := by decide
+
+/-- **XPathProcessorImpl::tokenize — control skeleton.**  For every expression string the outer scan, the nested quote scans and
+    the number scan (whose `--i` only undoes the `++i` of the same round) only move forward: the loop ends within `nChars + 1` rounds, either with all characters consumed or with
+    `UnterminatedStringLiteral` (`none`). -/
+theorem tokenize_terminates (pat : List Nat) :
+    ∃ r, tokenizeLoop pat (pat.length + 1) 0 0 = .ok r :=
+  tokenizeLoop_ok pat (pat.length + 1) 0 0 (by omega) (by omega)
+
+example : tokenizeLoop [97, 39, 98, 99, 39, 100] 7 0 0 = .ok (some 3) ∧ tokenizeLoop [34, 97] 3 0 0 = .ok none ∧
+    tokenizeLoop [49, 46, 53, 46, 50] 6 0 0 = .ok (some 3) := by decide
+
+set_option exponentiation.threshold 2000 in
+/-- **double → integer conversions in XPath::predicates and ElemNumber (both directions, for the regenerated guards).**
+    With the range tests on the double in place every conversion that is evaluated has a defined result, for every double,
+    every list length below 2^53 and either rounding direction; without them `1e30` reaches a conversion whose result the C++
+    standard leaves undefined (x86-64 yields 2^63, which the following comparison happens to reject — not observable with the
+    sanitizer flags of the `asan` flavor, GCC's `-fsanitize=undefined` does not include float-cast-overflow).
+    `proposed/C03-float-cast-guards.diff` adds the tests. -/
+theorem float_casts_defined_iff_guarded :
+    (∀ (x : DblAbs) (len : Nat) (up : Bool), IsDouble x → len < 2 ^ 53 →
+        (∀ y ∈ predicateCastOperands true x len, castDefined y = true) ∧
+        (∀ y ∈ numberCastOperands true x up, castDefined y = true)) ∧
+    (∃ x : DblAbs, IsDouble x ∧ (∃ y ∈ predicateCastOperands false x 3, castDefined y = false) ∧
+        (∃ y ∈ numberCastOperands false x false, castDefined y = false)) := by
+  constructor
+  · intro x len up hd hl
+    constructor
+    · intro y hy
+      unfold predicateCastOperands at hy
+      cases hn : x.neg
+      · simp only [hn, Bool.false_eq_true, if_false, if_true] at hy
+        cases hg : gtLen x len
+        · simp only [hg, Bool.false_eq_true, if_false, List.mem_singleton] at hy
+          rw [hy]
+          simp only [gtLen, hn, Bool.not_false, Bool.true_and, Bool.or_eq_false_iff, decide_eq_false_iff_not] at hg
+          have h1 : ¬ x.ip > len := hg.1
+          simp only [castDefined, hn, Bool.not_false, Bool.true_or, Bool.true_and, decide_eq_true_eq]
+          omega
+        · simp [hg] at hy
+      · simp [hn] at hy
+    · intro y hy
+      unfold numberCastOperands at hy
+      cases hn : x.neg
+      · simp only [hn, Bool.false_eq_true, if_false, Bool.true_and, decide_eq_true_eq] at hy
+        by_cases hbig : x.ip ≥ 2 ^ 64
+        · rw [if_pos hbig] at hy; simp at hy
+        · rw [if_neg hbig, List.mem_singleton] at hy
+          rw [hy]
+          simp only [castDefined, Bool.not_false, Bool.true_or, Bool.true_and, decide_eq_true_eq]
+          have h53 := hd.1
+          cases hi : x.isInt
+          · have := h53 hi
+            cases up <;> simp <;> omega
+          · cases up <;> simp <;> omega
+      · simp [hn] at hy
+  · refine ⟨⟨false, 10 ^ 30, true⟩, ⟨by simp, by decide +kernel⟩, ?_, ?_⟩
+    · exact ⟨⟨false, 10 ^ 30, true⟩, by simp [predicateCastOperands], by decide⟩
+    · exact ⟨⟨false, 10 ^ 30, true⟩, by simp [numberCastOperands], by decide⟩
+
+example : IsDouble ⟨false, 7, false⟩ ∧ predicateCastOperands true ⟨false, 2, true⟩ 3 = [⟨false, 2, true⟩] := by
+  refine ⟨⟨by intro _; decide, by decide +kernel⟩, by decide⟩
 
 end XalanModel.Props.C03
